@@ -177,7 +177,11 @@ def handleTriples (exact : Bool) (args : List String) : Verdict :=
     (do
       let np ← rest.head? >>= String.toNat?
       let (tr, r1) ← takeTriples np rest.tail
-      if !r1.isEmpty then none else
+      -- counting match function: number of invocations and number of distinct triples (centre, {j, k}) it was invoked for
+      let cnt : Option (Nat × Nat) := match r1 with
+        | ["|", a, b] => (do let x ← a.toNat?; let y ← b.toNat?; pure (x, y))
+        | _ => none
+      if !r1.isEmpty && cnt.isNone then none else
       if !exact && c.nearCut then pure ({ tag := "triples:skipped-near-cutoff" } : Verdict) else
       let bt := autoDetect c.B
       let l1 := if nt == 1 then c.all else c.ofType 0
@@ -189,8 +193,11 @@ def handleTriples (exact : Bool) (args : List String) : Verdict :=
       let impl := sortT (tr.map norm3)
       let setOk := impl == spec
       let dupOk := impl.eraseDups.length == impl.length
-      pure ({ agree := model == impl, propOk := setOk && dupOk,
-              msg := if setOk && dupOk then "" else s!"set={setOk} storedOnce={dupOk} want={spec.take 8} got={impl.take 8}",
+      -- "once each": the match function is invoked once per reported triple (and for nothing else)
+      let callOk := match cnt with | some (ninv, ndist) => ninv == ndist && ndist == impl.length | none => true
+      pure ({ agree := model == impl, propOk := setOk && dupOk && callOk,
+              msg := if setOk && dupOk && callOk then "" else if setOk && dupOk then s!"TRIPLE-CALLBACK the match function was invoked {(cnt.getD (0, 0)).1} times for {(cnt.getD (0, 0)).2} distinct triples ({impl.length} stored): not once each"
+                     else s!"set={setOk} storedOnce={dupOk} want={spec.take 8} got={impl.take 8}",
               tag := s!"triples:{algo}:{nt}type{if c.excl then ":excl" else ""}:{if spec.isEmpty then "empty" else "triples"}" } : Verdict)).getD (bad "triples payload")
 
 def handle (args : List String) : Verdict :=
